@@ -185,13 +185,6 @@ Definition entry_md (e : entry) (hs qs : pairs) : md :=
   end.
 
 (* ---- canonical form for comparison: sort by key ---- *)
-Fixpoint bytes_leb (a b : bytes) : bool :=
-  match a, b with
-  | [], _ => true
-  | _ :: _, [] => false
-  | x :: a', y :: b' => if x <? y then true else if y <? x then false else bytes_leb a' b'
-  end.
-
 Fixpoint insert_md (kv : bytes * list bytes) (m : md) : md :=
   match m with
   | [] => [kv]
